@@ -6,6 +6,7 @@ import PygVerif.Model.Listing
 import PygVerif.Model.Skel
 import PygVerif.Model.Umn
 import PygVerif.Model.Cache
+import PygVerif.Model.Fail
 /-!
 # Driver — line protocol between the Python harness and the executable model
 
@@ -221,6 +222,14 @@ def step (fields : List String) : String :=
       else if o == "l" then some .list else none
     let (_, outs) := Cache.run (D := Nat) (L := Nat) id lifetime.toNat! (Cache.init 0) parsed
     " ".intercalate (outs.map fun (t, l) => toString t ++ ":" ++ toString l)
+  | ["failflow", frame, errWrites, withFile, n, mode, arg, cls] =>
+    let fr : Fail.Frame := if frame == "inside" then .insideTry errWrites.toNat! else .outsideTry
+    let k := arg.toNat!
+    let failsAt : Nat → Bool := if mode == "at" then (fun i => i == k) else if mode == "from" then (fun i => k ≤ i) else (fun _ => false)
+    let o := Fail.flow fr (decBool withFile) n.toNat! failsAt cls.toNat!
+    (match o.escaped with | some c => toString c | none => "-") ++ "\t" ++
+      " ".intercalate ((Fail.logsOf o).map toString) ++ "\t" ++ toString (Fail.opens o) ++ "\t" ++ toString (Fail.closes o) ++ "\t" ++
+      toString (o.events.filter fun e => match e with | .write _ => true | _ => false).length
   | ["skeleton", st, page] =>
     let (s, k) := run (tstateOf st) (decStr page)
     (match s with | .text => "text" | .tag => "tag" | .attrDq => "dq" | .attrSq => "sq") ++ "\t" ++ encStr k
